@@ -17,11 +17,15 @@ ENDIAN_FNS = {"from_le_bytes": "le", "from_be_bytes": "be", "to_le_bytes": "le",
 
 
 def fn_family(prog, f):
-    """f plus its (transitive) closures."""
+    """f plus its (transitive) closures and the helpers new to the tree that it uses (a closure turned into a named fn)."""
     out = [f]
     i = 0
     while i < len(out):
         out.extend(prog.closures_of.get(out[i].id, []))
+        if i == 0:
+            for h in prog.new_helpers_of(f):
+                if h not in out:
+                    out.append(h)
         i += 1
     return out
 
